@@ -1,6 +1,6 @@
 #!/usr/bin/env python3
 """Regenerate the generated tables of DESIGN.md (between <!-- BEGIN:x --> / <!-- END:x --> markers):
-findings (from known_findings.txt) and seeded (from seeded/*/meta.json)."""
+findings (from known_findings.txt), seeded and waves (from seeded/*/meta.json)."""
 import re, os, subprocess, json, glob
 ROOT=os.path.dirname(os.path.dirname(os.path.abspath(__file__)))
 d=open(os.path.join(ROOT,'DESIGN.md')).read()
@@ -24,5 +24,7 @@ put('findings','%d genuine defects were found by the checks on the pinned tree: 
 seed=subprocess.run([os.path.join(ROOT,'tools','seed_table.py')],capture_output=True,text=True).stdout
 n=len(glob.glob(os.path.join(ROOT,'seeded','*')))
 put('seeded','%d seeded changes (each written by a fresh sub-agent that saw only the property text and a scratch checkout; each confirmed here: compiles, existing tests pass, demonstration fails with / passes without) are kept under `seeded/`. `input` = the check reports a VIOLATION with a concrete failing input; where a change was first missed or only reported as no-failing-input-found the notes say how the check was strengthened.\n\n'%n+seed)
+waves=subprocess.run([os.path.join(ROOT,'tools','wave_stats.py')],capture_output=True,text=True).stdout
+if '<!-- BEGIN:waves -->' in d: put('waves',waves)
 open(os.path.join(ROOT,'DESIGN.md'),'w').write(d)
 print('tables regenerated')
